@@ -1,6 +1,7 @@
 mod ctx;
 mod c04;
 mod c07;
+mod c13;
 
 use ctx::{Ctx, Tier};
 use std::collections::BTreeMap;
@@ -34,6 +35,7 @@ fn main() {
     match prop.as_str() {
         "C04" => { c04::run(&mut ctx); ctx.finish("corr.C04", "run_C04"); }
         "C07" => { c07::run(&mut ctx); ctx.finish("corr.C07", "run_C07"); }
+        "C13" => { c13::run(&mut ctx); ctx.finish("corr.C13", "run_C13"); }
         _ => { eprintln!("unknown property {}", prop); std::process::exit(2); }
     }
 }
